@@ -59,14 +59,8 @@ class Gen:
         return Var(self.r.choice(VARS[T]), T)
 
     def num(self, T):
-        n = self.r.choice([0, 1, 2, 3, 10, 17])
-        if T == N:
-            return dnat.to_binary_nat(n) if hasattr(dnat, 'to_binary_nat') else Const('zero', N)
-        if n == 0:
-            return Const('zero', T)
-        if n == 1:
-            return Const('one', T)
-        return Const('of_nat', TFun(N, T))(dnat.to_binary(n)) if hasattr(dnat, 'to_binary') else Const('one', T)
+        from kernel.term import Number
+        return Number(T, self.r.choice([0, 1, 2, 3, 10, 17]))
 
     def ite(self, T, P, x, y):
         return Const('IF', TFun(B, T, T, T))(P, x, y)
